@@ -316,6 +316,17 @@ func IllTyped(w *vt.W, rng *rand.Rand) {
 		ragged2 := matrix(5, func(i, j int) int { return good[i][j] })
 		ragged2[4] = append(ragged2[4], 0)
 		emit(name, "ragged matrix (long last row)", aligner(name, ragged2, -2), mk(base, a), mk(base, a))
+		// ragged, but with the right number of entries in total: row lengths that compensate each other
+		for _, lens := range [][]int{{5, 4, 6, 5, 5}, {7, 5, 5, 5, 3}, {6, 4, 5, 5, 5}, {5, 5, 5, 4, 6}, {4, 6, 5, 5, 5}} {
+			comp := make([][]int, 5)
+			for i, n := range lens {
+				comp[i] = make([]int, n)
+				for j := range comp[i] {
+					comp[i][j] = good[i%5][j%5]
+				}
+			}
+			emit(name, fmt.Sprintf("ragged matrix with n*n entries %v", lens), aligner(name, comp, -2), mk(base, a), mk(base, a))
+		}
 		small := matrix(4, func(i, j int) int { return good[i][j] })
 		emit(name, "undersized matrix", aligner(name, small, -2), mk(base, a), mk(base, a))
 		emit(name, "undersized matrix, short sequences", aligner(name, matrix(2, func(i, j int) int { return -1 }), -2), mk("t", a), mk("g", a))
